@@ -193,6 +193,9 @@ class ControllerApplication:
 
     def _process_addressclaim_locked(self, mid, data, timestamp):
         src_address = mid.source_address
+        if len(data) != 8:
+            # not a NAME: a truncated frame would read as a (low) NAME and win the arbitration
+            return
         logger.debug("Received ADDRESS CLAIMED message from source '%d'", src_address)
 
         # are we awaiting this address claimed message?
